@@ -1,2 +1,20 @@
-(* C04 *)
-From WaxModel Require Import Base.
+(* C04 -- Captures are consistent with the match and with the expression. *)
+From WaxModel Require Import Base Token Regex Spec Encode.
+From WaxProofs Require Import EncodeFacts.
+
+(* captures 1..n correspond one to one to the capturing tokens of the top-level concatenation:
+   the compiled program has exactly one group per capturing token and none for nested tokens *)
+Theorem C04_group_count :
+  forall t, flat_top t -> ngroups (encode t) = length (filter is_capturing (concatenation t)).
+Proof. exact group_count. Qed.
+Print Assumptions C04_group_count.
+
+Theorem C04_nested_tokens_do_not_capture : forall t s e, ngroups (enc_tok false t s e) = 0%nat.
+Proof. exact ngroups_enc_false. Qed.
+Print Assumptions C04_nested_tokens_do_not_capture.
+
+(* text captured by `?`, `*`, `$` or a class never contains a separator (the group's own language) *)
+Theorem C04_wildcard_capture_separator_free :
+  forall orbit cap s e lz w, sem orbit (enc_leaf cap s e (LZom lz)) w -> nosep w = true.
+Proof. intros orbit cap s e lz w. exact (proj1 (zom_sem orbit cap s e lz w)). Qed.
+Print Assumptions C04_wildcard_capture_separator_free.
